@@ -190,6 +190,8 @@ func runC04(r *core.Run) {
 			if !r.Quick() || e == k.exts[len(k.exts)-1] {
 				c.XHTML = true
 				cfgs = append(cfgs, c)
+				c.XHTML, c.Explicit = false, true // safe mode spelled out as option("Unsafe", false)
+				cfgs = append(cfgs, c)
 			}
 		}
 		var urls []string
